@@ -154,6 +154,11 @@ func (v *Vue) evalBoundAttribute(ctx VueContext, attrName, expr string) (any, er
 	if ok {
 		return valResolved, nil
 	}
+	// Not a path that resolves: it may be a literal, a negation or an operator written without
+	// surrounding spaces. Evaluate it as an expression; an undefined name stays empty.
+	if res, err := v.exprEval.Eval(expr, ctx.stack.EnvMap()); err == nil && res != nil {
+		return res, nil
+	}
 	return "", nil
 }
 
